@@ -29,13 +29,30 @@ fn r2y(c: &Cfg, t: u8, p: u8) -> (String, Option<Yuv<u8>>) {
     guard(|| Yuv::<u8>::try_from((&r, c.yuv_config())))
 }
 
-pub fn gen_c14(sh: &mut Shards, _o: &Opts) -> serde_json::Value {
+pub fn gen_c14(sh: &mut Shards, o: &Opts) -> serde_json::Value {
     let prev = std::panic::take_hook();
     std::panic::set_hook(Box::new(|_| {}));
     let mut n = 0u64;
+    // every triple twice: once in enumeration order, once in a seeded random order (outcomes must not depend on what
+    // was converted before; the table's completeness is checked by TLC on the set of triples)
+    let mut triples: Vec<(u8, u8, u8)> = Vec::new();
     for &m in MC_ALL.iter().filter(|&&x| x != 2) {
         for &t in TC_ALL.iter().filter(|&&x| x != 2) {
             for &p in CP_ALL.iter().filter(|&&x| x != 2) {
+                triples.push((m, t, p));
+            }
+        }
+    }
+    let mut shuffled = triples.clone();
+    let mut rng = crate::util::Rng::new(o.seed, 0x1414);
+    for i in (1..shuffled.len()).rev() {
+        let j = rng.below(i as u64 + 1) as usize;
+        shuffled.swap(i, j);
+    }
+    triples.extend(shuffled);
+    {
+        {
+            for &(m, t, p) in &triples {
                 let c = Cfg { mc: m, tc: t, cp: p, full: false, n: 8, ssx: 0, ssy: 0 };
                 let cref = Cfg { tc: 1, cp: 1, ..c };
                 let yuv = || yuv444::<u8>(&YUV_PX, 2, 2, &c).expect("ctor");
